@@ -208,7 +208,7 @@ def case_strategy(draw, tier):
                         kinds={"yield": 2 if mode in ("yield", "both") else 0})
     prog = draw(gen.program(cfg))
     argv = list(prog.argv) + draw(options.codegen_options(indirect=True if mode in ("yield", "both") else None))
-    choices = draw(st.lists(st.lists(st.integers(0, 255), min_size=1, max_size=20), min_size=1, max_size=4))
+    choices = draw(st.lists(st.lists(st.integers(0, 4095), min_size=1, max_size=20), min_size=1, max_size=4))
     return prog, argv, choices
 
 
